@@ -210,7 +210,8 @@ def judge_mixed(case) -> Verdict:
         if lo < i:
             continue
         out.extend(items[i:lo])
-        out.append(AceGroup(items=items[lo:lo + ln], platform=acl.platform))
+        out.append(AceGroup(items=items[lo:lo + ln], platform=acl.platform, version=str(acl.version), port_nr=acl.port_nr,
+                            protocol_nr=acl.protocol_nr, max_ncwb=acl.max_ncwb))
         i = lo + len(items[lo:lo + ln])
     out.extend(items[i:])
     acl.items = out
